@@ -413,6 +413,15 @@ func (c *Ctx) aliasOutlinedBodies() {
 			// maxWait, full) Stream[T] { return startBatching(s, maxWait, full) }, with Batch calling startBatching too): the
 			// helper's parameters are then the forwarder's under other names, whoever else calls it
 			pass := len(call.Call.Args) == len(f.Params) && !aliasedHelpers[h]
+			// (only for a helper that is new: one the pinned tree already had under this name - Group.spawn behind Do - is a
+			// function in its own right, not an outlined body)
+			for k2, f2 := range c.byName {
+				if f2 == h {
+					if _, pinned := pinnedParams[k2]; pinned {
+						pass = false
+					}
+				}
+			}
 			for i, a := range call.Call.Args {
 				if pass && (i >= len(f.Params) || a != ssa.Value(f.Params[i])) {
 					pass = false
